@@ -439,6 +439,9 @@ pub enum MidiOp {
     /// complete channel message: status nibble (0x8..=0xE), channel selector, data; `rs`: use running status if legal
     Chan { kind: u8, own: bool, other: u8, d1: u8, d2: u8, rs: bool },
     RealTime(u8),
+    /// complete channel message (always with its status byte) with system real-time bytes inside it: after the status
+    /// byte (`at` bit 0), between the two data bytes (`at` bit 1); `at` = 0 counts as bit 0
+    ChanRt { kind: u8, own: bool, other: u8, d1: u8, d2: u8, rt: u8, at: u8 },
     /// F0 payload F7
     SysEx(Vec<u8>),
     /// system common status (F1..F6) followed by `n` data bytes
@@ -482,6 +485,24 @@ pub fn encode(op: &MidiOp, channel: u8, running: &mut Option<u8>, out: &mut Vec<
             }
         }
         MidiOp::RealTime(b) => out.push(0xF8 + (*b % 8)),
+        MidiOp::ChanRt { kind, own, other, d1, d2, rt, at } => {
+            let k = 0x8 + (*kind % 7);
+            let ch = if *own { channel } else { (channel + 1 + *other % 15) % 16 };
+            let status = k << 4 | ch;
+            let at = if *at & 3 == 0 { 1 } else { *at & 3 };
+            out.push(status);
+            *running = Some(status);
+            if at & 1 != 0 {
+                out.push(0xF8 + (*rt % 8));
+            }
+            out.push(*d1 & 0x7F);
+            if data_len(status) == 2 {
+                if at & 2 != 0 {
+                    out.push(0xF8 + ((*rt / 8) % 8));
+                }
+                out.push(*d2 & 0x7F);
+            }
+        }
         MidiOp::SysEx(p) => {
             out.push(0xF0);
             out.extend(p.iter().map(|b| b & 0x7F));
@@ -768,6 +789,9 @@ pub fn run_case(case: &MidiCase, mask: u32, stats: &mut Stats) -> Result<CaseInf
     }
     stats.count("bytes", n_bytes);
     stats.count("messages", n_msgs);
+    if dec.realtime_inside_message {
+        stats.count("label.realtime_byte_inside_message", 1);
+    }
     let mut nt = false;
     if mask & C04 != 0 {
         let shape = model.lbl_out_of_order_release || model.lbl_duplicate_on || model.lbl_stray_off || model.lbl_ano_multi;
@@ -961,7 +985,7 @@ pub fn run_meta(case: &MetaCase, stats: &mut Stats) -> Result<CaseInfo, Failure>
                 }
                 continue;
             }
-            MidiOp::Chan { own: true, .. } => {
+            MidiOp::Chan { own: true, .. } | MidiOp::ChanRt { own: true, .. } => {
                 own_msgs += 1;
             }
             _ => {}
